@@ -574,6 +574,12 @@ class ExprMixin:
             m = self.repo.find_method(sv.pt[4:], "__iter__")
             if m is not None:
                 return self.as_seq(self.call_function(self.generator_as_list(m), [sv], {}, st, fr, node), st, fr, node)
+        if sv.pt == "str" and sv.t is not None and z3.is_string_value(sv.t):
+            # iteration over a string constant: its characters
+            cur = v.snil
+            for ch_ in sv.t.as_string():
+                cur = v.sapp(cur, v.S2V(z3.StringVal(ch_)))
+            return SV(cur, "list")
         if sv.pt == "any":
             self.typing_assumptions += 1       # iterated value is viewed as a sequence
             return SV(sv.t, "list")
